@@ -634,7 +634,7 @@ def store_filtered_feature(rtdc_writer, feat, data, filtarr):
             for trstack in yield_filtered_array_stacks(data[tr], indices):
                 hw.store_feature("trace", {tr: trstack})
     elif dfn.scalar_feature_exists(feat):
-        hw.store_feature(feat, data[filtarr])
+        hw.store_feature(feat, data[indices])
     else:
         # Special case of plugin or temporary features.
         shape = data[0].shape
